@@ -429,7 +429,9 @@ def run_unit(u, scratch, want_trace=True):
         r["reason"] = "%d obligation(s) undecided (timeout): %s" % (len(unknown), " ".join(fo["obligation"] for fo in unknown[:8]) + (" ..." if len(unknown) > 8 else ""))
     elif nob == 0:
         r["reason"] = "vacuity guard: zero obligations"
-    elif reach_hit < u.reach:
+    elif not failed and reach_hit < u.reach:
+        # (a refuted obligation is a counterexample in its own right; the reachability
+        # guard protects PASSING units against vacuity)
         r["reason"] = "vacuity guard: only %d of %d reachability points satisfiable" % (reach_hit, u.reach)
     elif u.loops and r["spliced_loops"] and r.get("expect_loopstep", True) and loopstep == 0:
         r["reason"] = "vacuity guard: loop contracts spliced but no loop_invariant_step obligation"
